@@ -1,9 +1,9 @@
 #!/bin/bash
 # tools/benign_rerun.sh — every benign refactoring under /verif/benign must leave its group's checks silent (quick tier).
 cd "$(dirname "$0")/.."
-declare -A G=([B1]="C01,C08,C09" [B2]="C02,C03,C11,C12,C13" [B3]="C04,C05,C15,C16" [B4]="C06,C07,C17,C18" [B5]="C14,C19,C20")
+declare -A G=([B1]="C01,C08,C09" [B2]="C02,C03,C11,C12,C13" [B3]="C04,C05,C15,C16" [B4]="C06,C07,C17,C18" [B5]="C14,C19,C20" [D1]="C01,C08,C09,C10" [D2]="C02,C03,C11,C12,C13,C10" [D3]="C04,C05,C15,C16,C10" [D4]="C06,C07,C17,C18,C10" [D5]="C14,C19,C20,C10")
 bad=0
-for g in B1 B2 B3 B4 B5; do
+for g in B1 B2 B3 B4 B5 D1 D2 D3 D4 D5; do
   for p in benign/$g/patch*.diff; do
     out=$(tools/mutant.sh "$p" "${G[$g]}" quick 2>&1)
     if echo "$out" | grep -q "PATCH DOES NOT APPLY"; then echo "$p: does not apply to the current tree (skipped)"; continue; fi
